@@ -310,6 +310,12 @@ def run_plan(pid, tier, seed, extra_cov=None, t0=None):
                                                                         (" NOT: %s" % dead) if dead else ""))
         if dead:
             raise C.ToolError("vacuous guard(s) in NomtSync: %s" % dead)
+    if pid == "C17":
+        # the free list of the value files has its own transcription (copy-on-write of the old list)
+        from . import freelist
+        fs, ft, fsum = freelist.design_level(pid, tier, violations)
+        states += fs; trans += ft
+        mcs.extend(dict(config=x["config"], states=x["states"], transitions=0, ok=x["ok"], wall_s=0) for x in fsum)
     # 2. the real code
     if pid == "C14":
         return run_faults(pid, tier, seed, plan, rng, t0, states, trans, mcs, violations)
